@@ -670,6 +670,60 @@ def group_guard(p):
     return out
 
 
+# ============================================================================================
+# 3c. the documented resume protocol of an engine, called directly (no Simulation):
+#     rd = eng.get_resume_data();  eng2 = AlgorithmClass(psi, model, options, resume_data=rd);  eng2.resume_run()
+# ============================================================================================
+
+def engine_restore(p):
+    """For each case: an engine with the drawn options is run `runs` times (0: not at all - resume data of a fresh engine:
+    sweeps 0, empty sweep_stats, evolved_time == start_time, trunc_err == start_trunc_err), its get_resume_data() is written to
+    a file (pickle / HDF5) and loaded, a second engine is created from it with the same options; the counters of the second
+    engine, and the results of one more run() of the first / resume_run() of the second engine are returned."""
+    from tenpy.algorithms.algorithm import Algorithm
+    from tenpy.models.xxz_chain import XXZChain
+    from tenpy.networks.mps import MPS
+    from tenpy.tools.misc import find_subclass
+    import tenpy.algorithms  # noqa: F401
+    out = []
+    d = tempfile.mkdtemp(prefix='c18-', dir=BASE)
+    try:
+        for c in p['cases']:
+            r = {'outcome': 'ok'}
+            try:
+                is_te = c['sim'] == 'RealTimeEvolution'
+                ap = real_options(c)['algorithm_params']
+                M = XXZChain({'L': c['L'], 'bc_MPS': 'finite', 'sort_charge': True})
+                psi = MPS.from_lat_product_state(M.lat, [['up'], ['down']])
+                Alg = find_subclass(Algorithm, c['alg'])
+                eng = Alg(psi, M, copy.deepcopy(ap))
+                r['fresh'] = jsonable(H.counters_of(eng))
+                for _ in range(c['runs']):
+                    eng.run()
+                rd = eng.get_resume_data()
+                fn = os.path.join(d, 'rd.' + c['fmt'])
+                tenpy.tools.hdf5_io.save({'resume_data': rd}, fn)
+                rd2 = tenpy.tools.hdf5_io.load(fn)['resume_data']
+                os.unlink(fn)
+                r['saved'] = jsonable(H.counters_of(rd2))
+                r['engine_at_save'] = jsonable(H.counters_of(eng))
+                eng2 = Alg(rd2['psi'], M, copy.deepcopy(ap), resume_data=rd2)
+                r['restored'] = jsonable(H.counters_of(eng2))
+                eng.run()
+                eng2.resume_run()
+                r['after'] = [jsonable(H.counters_of(eng)), jsonable(H.counters_of(eng2))]
+                r['overlap'] = overlap(eng.psi, eng2.psi)
+                r['norm_ratio'] = float(eng2.psi.norm / eng.psi.norm)
+                if not is_te:
+                    r['energies'] = [float(eng.sweep_stats['E'][-1]), float(eng2.sweep_stats['E'][-1])]
+            except Exception as e:
+                r['outcome'] = 'error: %s: %s | %s' % (type(e).__name__, e, traceback.format_exc()[-600:])
+            out.append(r)
+    finally:
+        shutil.rmtree(d, ignore_errors=True)
+    return out
+
+
 class CheckpointCrash(FaultFS):
     """Crash inside the write ('write': half of the bytes) or right after the rename ('rename') of the
     first save performed at or after the c-th checkpoint (with save_every_x_seconds=0 that is the save at
@@ -706,6 +760,8 @@ def main():
             res = real_run(payload)
         elif kind == 'group_guard':
             res = group_guard(payload)
+        elif kind == 'engine_restore':
+            res = engine_restore(payload)
         else:
             raise ValueError(kind)
     except Exception:
